@@ -92,6 +92,8 @@ struct LoopContext {
     /// Iterator register for for-of loops (for iterator close protocol)
     /// When set, break/return/throw should call iterator.return()
     iterator_reg: Option<Register>,
+    /// True for the context of a switch statement: a target for `break` but not for `continue`
+    is_switch: bool,
 }
 
 impl Compiler {
@@ -253,6 +255,14 @@ impl Compiler {
         self.push_loop_with_iterator(label, None);
     }
 
+    /// Push the context of a switch statement (break target only)
+    fn push_switch(&mut self) {
+        self.push_loop_with_iterator(None, None);
+        if let Some(ctx) = self.loop_stack.last_mut() {
+            ctx.is_switch = true;
+        }
+    }
+
     /// Push a loop context with an iterator register (for for-of loops)
     fn push_loop_with_iterator(&mut self, label: Option<JsString>, iterator_reg: Option<Register>) {
         let index = self.loop_stack.len();
@@ -266,6 +276,7 @@ impl Compiler {
             continue_jumps: Vec::new(),
             try_depth: self.try_depth,
             iterator_reg,
+            is_switch: false,
         });
     }
 
@@ -350,9 +361,11 @@ impl Compiler {
                 ))
             })?
         } else {
+            // An unlabelled break targets the innermost loop or switch; contexts that only
+            // exist because of a label (labelled blocks) are not break targets for it.
             self.loop_stack
-                .len()
-                .checked_sub(1)
+                .iter()
+                .rposition(|ctx| ctx.label.is_none())
                 .ok_or_else(|| JsError::syntax_error_simple("Illegal break statement"))?
         };
 
@@ -397,9 +410,11 @@ impl Compiler {
                 ))
             })?
         } else {
+            // An unlabelled continue targets the innermost loop: neither a switch nor a
+            // context that only exists because of a label
             self.loop_stack
-                .len()
-                .checked_sub(1)
+                .iter()
+                .rposition(|ctx| ctx.label.is_none() && !ctx.is_switch)
                 .ok_or_else(|| JsError::syntax_error_simple("Illegal continue statement"))?
         };
 
